@@ -67,9 +67,9 @@ func kindsFor(op string) []string {
 	case "open":
 		return []string{"wrongerr", "wrongpath"}
 	case "remove":
-		return []string{"noop", "wrongerr", "wrongpath"}
+		return []string{"noop", "wrongerr", "weakerr", "wrongpath"}
 	case "rename":
-		return []string{"noop", "leavebehind", "wrongerr", "wrongpath"}
+		return []string{"noop", "leavebehind", "wrongerr", "weakerr", "wrongpath"}
 	case "stat", "f.stat":
 		return []string{"wrongsize", "wrongperm", "wrongerr", "wrongname"}
 	case "chmod":
@@ -307,6 +307,22 @@ func wrongErr(err error) error {
 	return repl
 }
 
+// weakerErr replaces an error by one that the EXPECTED error "is" but that is not the expected error: syscall.ENOTEMPTY
+// (ErrNotEmpty) matches fs.ErrExist through Errno.Is, not the other way round. A suite that compares with errors.Is must
+// ask errors.Is(actual, expected); asked the wrong way round, it accepts ErrExist where ErrNotEmpty is required.
+func weakerErr(err error) error {
+	if err == nil || !errors.Is(err, hackpadfs.ErrNotEmpty) {
+		return err
+	}
+	switch e := err.(type) {
+	case *hackpadfs.PathError:
+		return &hackpadfs.PathError{Op: e.Op, Path: e.Path, Err: hackpadfs.ErrExist}
+	case *hackpadfs.LinkError:
+		return &hackpadfs.LinkError{Op: e.Op, Old: e.Old, New: e.New, Err: hackpadfs.ErrExist}
+	}
+	return hackpadfs.ErrExist
+}
+
 func wrongPath(err error) error {
 	switch e := err.(type) {
 	case *hackpadfs.PathError:
@@ -415,6 +431,8 @@ func (d *devFS) Remove(name string) error {
 		switch d.sp.Kind {
 		case "wrongerr":
 			err = wrongErr(err)
+		case "weakerr":
+			err = weakerErr(err)
 		case "wrongpath":
 			err = wrongPath(err)
 		}
@@ -445,6 +463,8 @@ func (d *devFS) Rename(oldname, newname string) error {
 		switch d.sp.Kind {
 		case "wrongerr":
 			err = wrongErr(err)
+		case "weakerr":
+			err = weakerErr(err)
 		case "wrongpath":
 			err = wrongPath(err)
 		}
